@@ -1,6 +1,7 @@
 //! Verification harness: runs the real implementation (path dependency on /repo)
 //! and prints canonical observations. One sub-command per engine.
 mod ast;
+mod codec;
 mod interp;
 mod compile;
 mod frags;
@@ -33,6 +34,7 @@ fn main() {
     match args[1].as_str() {
         "tables" => tables::run(&args[2..]),
         "sat" => sat::run(&args[2..]),
+        "codec" => codec::run(&args[2..]),
         "interp" => interp::run(&args[2..]),
         "compile" => compile::run(&args[2..]),
         "compile-one" => compile::run_one(&args[2..]),
